@@ -9,9 +9,9 @@ import (
 
 func init() {
 	register(&propInfo{
-		ID:     "C13",
-		Run:    runC13,
-		MinObl: 22,
+		ID:          "C13",
+		Run:         runC13,
+		MinObl:      22,
 		Explanation: "Decided: R1 pipeline — every non-PAR success exit of NewAuthorizeRequest requires: client lookup nil; the request-object step nil; ParseResponseMode nil; the redirect matcher's nil error and IsValidRedirectURI; a registered response-type combination matched with Arguments.Matches (set equality); the response mode default or equal to one of the client's registered modes; len(state) ≥ GetMinParameterEntropy; and openid ⇒ redirect_uri present; R2 grant gates: every access-token issuance in an authorization-endpoint handler (OAuth2 implicit, OIDC implicit, hybrid) and the ID-token issuance of the OIDC implicit handler require Has(grant types, implicit); hybrid code issuance and the code-flow token validation require Has(grant types, authorization_code) (observed, not claimed: hybrid 'code id_token' issues its ID token under the authorization_code gate only); R3 nonce: OIDC implicit issues only with len(nonce) ≥ minimum entropy > 0; hybrid requires a nonce when id_token is requested and ≥ minimum entropy when one is present; R4 request objects: the key function returns the none opt-in constant only under (registered alg empty ∨ equal to the header alg) ∧ method none, asymmetric arms obtain the key through the client's JWKS lookup, other algorithms fail; request_uri is fetched only if listed in the client's request URIs; success requires Claims.Valid()==nil; R5 placement: handlers set the default response mode to fragment before issuing access/ID tokens; NewAuthorizeResponse succeeds only if all response types were handled and not (default fragment ∧ mode query); the writer's query arm is reached only for mode query/default; R6 state echo: every issuing handler adds state=GetState(request) and the error writer sets it before redirecting. NOT decided: the bytes written, go-jose verification.",
 	})
 }
@@ -57,7 +57,7 @@ func c13R1(c *Ctx) {
 	if ro == nil {
 		c.RoleUnmatched(rule, "request-object", "helper of the authorization endpoint calling jwt.ParseWithClaims")
 	}
-	ex := c.Explore(fn, ExploreConfig{Inline: func(f *ssa.Function) bool { return defaultInline(f) && f != ro }}, "authz-pipeline")
+	ex := c.Explore(fn, ExploreConfig{Inline: func(f *ssa.Function) bool { return defaultInline(f) && f != ro }, Opaque: func(f *ssa.Function) bool { return f == ro }}, "authz-pipeline")
 	if !c.complete(ex, rule, role, fn) {
 		return
 	}
@@ -127,7 +127,9 @@ func c13R1(c *Ctx) {
 			if f.Atom.Kind == "B" && f.Pol && f.Atom.A.IsCall(".Matches") && len(f.Atom.A.Args) == 2 {
 				reg := f.Atom.A.Args[1]
 				if reg.Mentions(func(s *Term) bool { return s.IsCall(".GetResponseTypes") && s.Args[0].Key() == client.Key() }) &&
-					f.Atom.A.Args[0].Mentions(func(s *Term) bool { return s.IsCall(".Get") && len(s.Args) == 2 && s.Args[1].Key() == tStr("response_type").Key() }) {
+					f.Atom.A.Args[0].Mentions(func(s *Term) bool {
+						return s.IsCall(".Get") && len(s.Args) == 2 && s.Args[1].Key() == tStr("response_type").Key()
+					}) {
 					okT = true
 				}
 			}
@@ -173,7 +175,9 @@ func c13R1(c *Ctx) {
 			fail("state-entropy", p, "success without len(state) >= GetMinParameterEntropy")
 		}
 		// openid => redirect_uri
-		oid, k := p.BoolCall(".Has", func(t *Term) bool { return len(t.Args) == 2 && litHas(t.Args[1], "openid") && len(t.Args[1].Args) == 1 && t.Args[0].Mentions(func(s *Term) bool { return s.IsCall(".GetRequestedScopes") || s.IsCall("fosite.RemoveEmpty") }) })
+		oid, k := p.BoolCall(".Has", func(t *Term) bool {
+			return len(t.Args) == 2 && litHas(t.Args[1], "openid") && len(t.Args[1].Args) == 1 && t.Args[0].Mentions(func(s *Term) bool { return s.IsCall(".GetRequestedScopes") || s.IsCall("fosite.RemoveEmpty") })
+		})
 		ru := call(".Get", field(r, "Form"), tStr("redirect_uri"))
 		if !(k && !oid) && !p.NonEmptyStr(ru) {
 			// the form may be read through the request object
@@ -401,10 +405,17 @@ func c13R4(c *Ctx) {
 	c.Check(okU && nFetch > 0, rule, role, ro, "request-uri-whitelisted", "a request_uri is fetched only if it is listed in the client's registered request URIs", "the HTTP fetch is reachable without the whitelist test", wU)
 	c.Check(okV && nS > 0, rule, role, ro, "claims-valid", "request-object parameters are honoured only if parsing/verification returned nil and Claims.Valid()==nil", "success without those literals", wV)
 	// key function
+	// the key function is whatever function value the parser receives (a closure
+	// of the request-object function, or one returned by a factory helper)
 	var kf *ssa.Function
-	for _, a := range ro.AnonFuncs {
-		if a.Signature.Results().Len() == 2 && a.Signature.Params().Len() == 1 {
-			kf = a
+	for _, p := range ex.Paths {
+		if pw := p.First("jwt.ParseWithClaims"); pw != nil && kf == nil {
+			pw.Arg(2).Walk(func(t *Term) bool {
+				if kf == nil && t.Fn != nil && t.Fn.Signature.Results().Len() == 2 && t.Fn.Signature.Params().Len() == 1 {
+					kf = t.Fn
+				}
+				return kf == nil
+			})
 		}
 	}
 	if kf == nil {
@@ -441,7 +452,9 @@ func c13R4(c *Ctx) {
 						if v, isC := b.StrConst(); isC && v == "" {
 							algOK = true
 						}
-						if b.Mentions(func(s *Term) bool { return s.Op == "lookup" || s.Op == "field" && s.Name == "Header" || s.IsCall("fmt.Sprintf") }) {
+						if b.Mentions(func(s *Term) bool {
+							return s.Op == "lookup" || s.Op == "field" && s.Name == "Header" || s.IsCall("fmt.Sprintf")
+						}) {
 							algOK = true
 						}
 					}
